@@ -216,6 +216,20 @@ class CallMixin:
             pass
         return self.run_body(st, fnode, env, f.b)
 
+    def call_ordinal(self, node, name):
+        """Ordinal of this call among the calls of `name` in the enclosing function
+        (stable under edits that only shift line numbers)."""
+        fnode = self.cur_fn_stack[-1] if self.cur_fn_stack else None
+        if fnode is None:
+            return 0
+        calls = [n for n in ast.walk(fnode) if isinstance(n, ast.Call) and
+                 (getattr(n.func, "id", None) == name.split(".")[-1] or getattr(n.func, "attr", None) == name.split(".")[-1])]
+        calls.sort(key=lambda n: (n.lineno, n.col_offset))
+        for i, n in enumerate(calls):
+            if n is node:
+                return i
+        return 0
+
     # ---------------------------------------------------- contract at a call --
     def apply_contract(self, st, c: FnContract, args, kwargs, node):
         names = [p[0] for p in c.params]
@@ -232,15 +246,40 @@ class CallMixin:
                 amap[nme] = d(self, st)
         if c.assumed:
             self.assumed_used.add(c.target)
+        for (nme, maker) in c.params:
+            co = getattr(maker, "coerce", None)
+            if co is not None and nme in amap:
+                v2, pre = co(amap[nme])
+                amap[nme] = v2
+                if pre is not None and not z3.is_true(z3.simplify(pre)):
+                    self.add_vc("call-pre", f"{c.target.split('::')[-1]}.{nme}-in-range@{self.call_ordinal(node, c.target.split('::')[-1])}",
+                                st.pc, pre, loc=self.loc(node))
+                    st.assume(pre)
         entry = st.fork()
         ctx = CallCtx(self, amap, entry, st)
         if c.requires is not None:
-            self.add_vc("call-pre", f"{c.target.split('::')[-1]}@{getattr(node, 'lineno', 0)}", st.pc,
+            self.add_vc("call-pre", f"{c.target.split('::')[-1]}@{self.call_ordinal(node, c.target.split('::')[-1])}", st.pc,
                         self._b(c.requires(ctx)), loc=self.loc(node))
             st.assume(self._b(c.requires(ctx)))
         if c.hyps is not None:
             st.assume(self._b(c.hyps(ctx)))
         out = []
+        # frame: everything in `modifies` is havocked first, on normal AND exceptional outcomes
+        for p in c.modifies:
+            v = amap.get(p)
+            if isinstance(v, VRef):
+                o = st.obj(v.ref)
+                if p in c.final:
+                    pass
+                elif o.kind in ("list", "bytearray") and o.data is not None:
+                    w = st.wobj(v.ref)
+                    w.data = [self.havoc_like(st, x, p) for x in o.data]
+                else:
+                    st.heap[v.ref] = HeapObj("unk", None, o.cls, o.fresh)
+            elif isinstance(v, VExt):
+                h = self.reg.ext_models.get(("havoc", v.sort))
+                if h is not None:
+                    h(self, st, v)
         # exceptional outcomes
         for r in c.raises:
             s2 = st.fork()
@@ -256,18 +295,6 @@ class CallMixin:
                     self.raise_in(s2, self.mk_exc(r.cls))
         if c.may_raise_any:
             self.exc_any(st.fork(), f"{self.loc(node)} {c.target}")
-        # normal outcome
-        for p in c.modifies:
-            v = amap.get(p)
-            if isinstance(v, VRef):
-                o = st.obj(v.ref)
-                if p in c.final:
-                    pass
-                elif o.kind in ("list", "bytearray") and o.data is not None:
-                    w = st.wobj(v.ref)
-                    w.data = [self.havoc_like(st, x, p) for x in o.data]
-                else:
-                    st.heap[v.ref] = HeapObj("unk", None, o.cls, o.fresh)
         ctx = CallCtx(self, amap, entry, st)
         for p, fn in c.final.items():
             v = amap[p]
